@@ -419,6 +419,10 @@ theorem refused_request_changes_nothing (s : St) (op : Op) (h : (step s op).2 = 
     by_cases ha : accepted w i 1 = true
     · simp [step, createRow, ha] at h
     · simp [step, createRow, ha]
+  | createMetrics w i =>
+    by_cases ha : accepted w i 2 = true
+    · simp [step, createRow, ha] at h
+    · simp [step, createRow, ha]
   | createTyped t =>
     by_cases ha : accepted 1 1 t = true
     · simp [step, createRow, ha] at h
@@ -435,30 +439,35 @@ theorem refused_request_changes_nothing (s : St) (op : Op) (h : (step s op).2 = 
   | legacyType k => simp [step] at h
   | restart => simp [step] at h
 
-/-- C20.S1' … spelled out for the creation of a Logs alert: the request is refused exactly when the interval is 0
-or the window is shorter than the interval — and then nothing is stored -/
+/-- C20.S1' … spelled out for the creation of a Logs alert: the request is refused exactly when the interval is 0,
+the window is shorter than the interval, or (patch c20-17) the interval does not fit the scheduler's time.Duration —
+and then nothing is stored -/
 theorem refused_create_stores_nothing (s : St) (window interval : Nat) :
-    ((step s (.create window interval)).2 = .refused ↔ (interval = 0 ∨ window < interval)) ∧
+    ((step s (.create window interval)).2 = .refused ↔ (interval = 0 ∨ window < interval ∨ maxInterval < interval)) ∧
     ((step s (.create window interval)).2 = .refused →
       (step s (.create window interval)).1.rows = s.rows ∧ (step s (.create window interval)).1.jobs = s.jobs) := by
   refine ⟨?_, refused_request_changes_nothing s (.create window interval)⟩
   by_cases ha : accepted window interval 1 = true
   · have ha' := ha
-    simp only [accepted, Bool.and_eq_true, bne_iff_ne, ne_eq, Bool.not_eq_true', decide_eq_false_iff_not] at ha'
+    simp only [accepted, Bool.and_eq_true, bne_iff_ne, ne_eq, Bool.not_eq_true', decide_eq_false_iff_not,
+      decide_eq_true_eq] at ha'
     simp only [step, createRow, ha, if_true]
     constructor
     · intro h; cases h
-    · rintro (h | h)
-      · exact absurd h ha'.1.1
-      · exact absurd h ha'.1.2
+    · rintro (h | h | h)
+      · exact absurd h ha'.1.1.1
+      · exact absurd h ha'.1.1.2
+      · exact absurd ha'.2 (Nat.not_le.2 h)
   · simp only [step, createRow, ha]
-    have : ¬ (interval ≠ 0 ∧ ¬ window < interval) := by
-      intro hc; apply ha; simp [accepted, hc.1, hc.2]
+    have : ¬ (interval ≠ 0 ∧ ¬ window < interval ∧ interval ≤ maxInterval) := by
+      intro hc; apply ha; simp [accepted, hc.1, hc.2.1, hc.2.2]
     constructor
     · intro _
       by_cases h0 : interval = 0
       · exact Or.inl h0
-      · right; exact Classical.byContradiction fun hn => this ⟨h0, hn⟩
+      · by_cases h1 : window < interval
+        · exact Or.inr (Or.inl h1)
+        · exact Or.inr (Or.inr (Nat.lt_of_not_le fun hle => this ⟨h0, h1, hle⟩))
     · intro _; rfl
 
 /-- C20.S2 a restart re-arms every alert: after ANY operation sequence (requests, restarts, rows rewritten behind
@@ -488,6 +497,36 @@ theorem restart_rearms_every_stored_alert (ops : List Op) (hr : RequestsOnly ops
   constructor
   · rintro ⟨r, hr, hk, _⟩; exact ⟨r, hr, hk⟩
   · rintro ⟨r, hr, hk⟩; exact ⟨r, hr, hk, hall r hr⟩
+
+/-- C20.S4 (patch c20-17) the cron job of an accepted alert runs at the interval of its DEFINITION: for every
+accepted window / interval / type the seconds `AddCronJob` computes — `int(EvalInterval*60)`, a uint64 product
+converted to a 64-bit int — are EvalInterval·60, unwrapped, and that many seconds fit a time.Duration -/
+theorem accepted_interval_is_job_interval (window interval type : Nat) (h : accepted window interval type = true) :
+    cronSeconds interval = Int.ofNat (interval * 60) ∧ interval * 60 * 10 ^ 9 < 2 ^ 63 := by
+  simp only [accepted, Bool.and_eq_true, decide_eq_true_eq] at h
+  have hb : interval ≤ 153722867 := h.2
+  have h1 : interval * 60 < 2 ^ 63 := by omega
+  have h2 : (interval * 60) % 2 ^ 64 = interval * 60 := Nat.mod_eq_of_lt (by omega)
+  refine ⟨?_, by omega⟩
+  unfold cronSeconds
+  simp only [h2, h1, if_true]
+
+/-- OLD behaviour (before patch c20-17) REFUTED: an alert with eval_interval = eval_for = 307445734561825861 minutes
+passed every test and its cron job ran every 44 SECONDS (the product wraps around 2^64); with 153722867280912931
+minutes the product is negative as an int, gocron refused it, and the request was answered with an error AFTER the
+alert had been stored -/
+theorem job_interval_wraps_old_counterexample :
+    acceptedOld 307445734561825861 307445734561825861 1 = true ∧ cronSeconds 307445734561825861 = 44 ∧
+    (stepOld init (.create 307445734561825861 307445734561825861)).2 = .ok ∧
+    (stepOld init (.create 153722867280912931 153722867280912931)).2 = .refused ∧
+    (stepOld init (.create 153722867280912931 153722867280912931)).1.rows ≠ init.rows ∧
+    (step init (.create 307445734561825861 307445734561825861)) = ({ init with next := 2 }, .refused) ∧
+    (step init (.create 153722867280912931 153722867280912931)) = ({ init with next := 2 }, .refused) := by decide
+
+example : -- Metrics alerts are stored and scheduled like Logs alerts; the longest interval that fits is accepted
+    (run init [.createMetrics 2 1, .createMetrics 0 0, .create 153722867 153722867, .create 153722868 153722868,
+      .restart]).1 =
+      { next := 5, rows := [⟨1, 2, 1, 2⟩, ⟨3, 153722867, 153722867, 1⟩], jobs := [1, 3] } := by decide
 
 example : -- non-vacuous: refused creates (interval 0, window < interval, type 0) store nothing; a row rewritten to
           -- interval 0 loses its own job at the restart, the alerts stored after it keep theirs
@@ -701,6 +740,36 @@ theorem tenant_frame_alias (st : St) (op : Op) (t : Nat) (ht : op.tenant = some 
     (∀ a i, memView (step st op).1 t' a i ↔ memView st t' a i) :=
   Lemmas.C20K.Alias.frame st op t ht t' hne
 
+/-- C20.K4 (aliases), WITH patch c20-14 (AddAliases refuses an alias that is not a valid index name): after EVERY
+operation sequence every stored alias name is a valid name … -/
+theorem alias_names_valid (ops : List Op) (t : Nat) (i a : Key)
+    (hf : a ∈ ((run init ops).1.files.get (t, i)).getD []) : validIndex a = true :=
+  (Lemmas.C20K.Alias.memOk_run ops init Lemmas.C20K.Alias.memOk_init).aliasValid t i a hf
+
+/-- … and the two views of the store — the index' alias file (`GetAliases`) and the in-memory alias→index map
+(list / resolve) — agree on EVERY pair, with no exception for the empty alias name any more. -/
+theorem alias_views_agree (ops : List Op) (t : Nat) (a i : Key) :
+    memView (run init ops).1 t a i ↔ a ∈ ((run init ops).1.files.get (t, i)).getD [] := by
+  have h := Lemmas.C20K.Alias.memOk_run ops init Lemmas.C20K.Alias.memOk_init
+  constructor
+  · intro hm; exact ((h.inverse t a i).1 hm).2
+  · intro hf
+    exact (h.inverse t a i).2 ⟨Lemmas.C20K.Alias.validIndex_ne_nil (h.aliasValid t i a hf), hf⟩
+
+/-- OLD behaviour (before patch c20-14) REFUTED: the EMPTY alias was acknowledged and written into the index' file
+(returned by `GetAliases`) but never entered the in-memory map (`putAliasToIndexInMem` refuses it): the two
+views disagreed for ever. -/
+theorem alias_views_agree_old_counterexample :
+    ¬ (∀ (ops : List Op) (t : Nat) (a i : Key),
+        memView (runOldAnyAlias init ops).1 t a i ↔ a ∈ ((runOldAnyAlias init ops).1.files.get (t, i)).getD []) := by
+  intro h
+  have h1 := (h [.add 0 [105] []] 0 [] [105]).2 (by decide)
+  revert h1; unfold memView; decide
+
+example : -- the add request is refused for an empty alias, "..", and a name with a path separator; nothing is stored
+    (run init [.add 0 [105] [], .add 0 [105] [46, 46], .add 0 [105] [97, 47, 98], .get 0 [105], .list 0]).2 =
+    [.res .invalid, .res .invalid, .res .invalid, .names [], .amap []] := by decide
+
 example : -- non-vacuous run of the alias model: removal of the last index, restart and graceful restart, orgs 0 and 1
     (run init [.add 0 [105] [97], .add 0 [106] [97], .resolve 0 [97], .remove 0 [105] [97], .remove 0 [106] [97],
       .list 0, .add 0 [105] [98], .add 1 [105] [98], .restart, .resolve 0 [98], .graceful, .resolve 1 [98],
@@ -735,37 +804,41 @@ example : -- non-vacuous: suffix rule, conflict without overwrite, case variants
       .names [[65, 46, 67, 83, 86]], .res .invalid] := by decide
 end Lookup
 
-/-! ## contact points (pkg/alerts/alertsqlite) — with patches c20-6 / c20-7 / c20-8 the sqlite table
-refines the keyed store (with names unique over all orgs) for every sequence in which update / delete
-address the caller's own contacts; the missing org check of update / delete stays (known finding) -/
+/-! ## contact points (pkg/alerts/alertsHandler + alertsqlite) — with patches c20-6 / c20-7 / c20-8 (sqlite
+methods), c20-15 (an update keeps the org of the stored row) and c20-18 (update / delete requests answer a contact
+of another org like one that does not exist) the table behind the request handlers refines the keyed store (with
+names unique over all orgs) for EVERY operation sequence, and no org's requests touch what another org reads;
+the behaviours before the patches are refuted by counterexample theorems -/
 section Contact
 open SigModel.KV.Contact
 
-/-- the guard that is left: update / delete address a contact of the caller's org, or no contact at all -/
-abbrev ContactOwnIds (ops : List Op) : Prop := OwnIds init ops = true
-
-/-- C20.K1 (contact points), partial: under the guard every answer is the documented one (create = stored
-under a fresh id, or already-exists when ANY org holds the name; update = not-found / already-exists / ok
-with the request's name, pager and Slack list replacing the stored ones, a refused update changing nothing;
-delete = not-found exactly when absent; list = exactly the org's contacts as last written) and `abs`
-commutes with every step. -/
-theorem kv_refines_spec_contact_partial (ops : List Op) (hc : ContactOwnIds ops) : Refines Spec.empty init ops := by
-  have h := Lemmas.C20K.Contact.refines_of_inv ops init Lemmas.C20K.Contact.inv_init hc
+/-- C20.K1 (contact points) at full strength: for EVERY sequence of create / update / delete / list requests of
+any orgs and restarts, every answer is the documented one (create = stored under a fresh id, or already-exists
+when ANY org holds the name; update = not-found — also for a contact of ANOTHER org — / already-exists / ok with
+the request's name, pager and Slack list replacing the stored ones, a refused update changing nothing;
+delete = not-found exactly when the caller's org holds no such contact; list = exactly the org's contacts as
+last written) and `abs` commutes with every step. -/
+theorem kv_refines_spec_contact (ops : List Op) : Refines Spec.empty init ops := by
+  have h := Lemmas.C20K.Contact.refines_of_inv ops init Lemmas.C20K.Contact.inv_init
   rwa [Lemmas.C20K.Contact.abs_init] at h
 
-example : -- the guard is satisfiable: two orgs, duplicate names, empty and non-empty Slack lists, delete, restart
-    ContactOwnIds [.create 0 [97] "p" ["c1"], .create 1 [97] "" [], .create 1 [98] "" ["c9"], .update 1 2 [99] "q" [],
-      .update 0 1 [99] "r" ["c2", "c3"], .list 0, .restart, .delete 1 2, .delete 1 2, .update 0 7 [100] "" [], .list 1] := by decide
+example : -- non-vacuous: two orgs, duplicate names, empty and non-empty Slack lists, foreign update / delete refused
+    (run init [.create 0 [97] "p" ["c1"], .create 1 [97] "" [], .create 1 [98] "" ["c9"], .update 1 2 [99] "q" [],
+      .update 0 2 [100] "r" [], .delete 0 2, .update 1 1 [101] "x" [], .list 0, .restart, .delete 1 2, .delete 1 2,
+      .list 1]).2 =
+    [.created 1, .res .exists_, .created 2, .res .ok, .res .notFound, .res .notFound, .res .notFound,
+      .rows [(1, { name := [97], org := 0, pager := "p", slack := ["c1"] })], .restarted, .res .ok, .res .notFound,
+      .rows []] := by decide
 
-/-- C20.K1 (contact points) at full strength is REFUTED: org 1 updating the id of org 0's contact is
-answered ok where the keyed store of org 1 holds no such key (no org check in UpdateContactPoint). -/
-theorem kv_refines_spec_contact_counterexample_foreign_update : ¬ (∀ ops, Refines Spec.empty init ops) := by
+/-- OLD behaviour (before patch c20-18, client putting its own org into the body) REFUTED: org 1 updating the id
+of org 0's contact was answered ok where the keyed store of org 1 holds no such key. -/
+theorem kv_refines_spec_contact_old_counterexample_foreign_update : ¬ (∀ ops, RefinesBodyOrg Spec.empty init ops) := by
   intro h
   have h1 := h [.create 0 [97] "p" [], .update 1 1 [98] "q" []]
-  simp only [Refines, RefinesWith] at h1
+  simp only [RefinesBodyOrg, RefinesWith] at h1
   obtain ⟨_, h0, h2, _⟩ := h1
-  have h3 : (step (step init (.create 0 [97] "p" [])).1 (.update 1 1 [98] "q" [])).2 = .res .ok := by decide
-  have h4 : (step init (.create 0 [97] "p" [])).2 = .created 1 := by decide
+  have h3 : (stepBodyOrg id (stepBodyOrg id init (.create 0 [97] "p" [])).1 (.update 1 1 [98] "q" [])).2 = .res .ok := by decide
+  have h4 : (stepBodyOrg id init (.create 0 [97] "p" [])).2 = .created 1 := by decide
   rw [h3, h4] at h2
   have hs : specNext Spec.empty (.create 0 [97] "p" []) (.created 1) 1 1 = none := by
     simp [specNext, Spec.set, Spec.empty]
@@ -773,6 +846,16 @@ theorem kv_refines_spec_contact_counterexample_foreign_update : ¬ (∀ ops, Ref
   · cases e
   · exact hne hs
   · cases e
+
+/-- OLD behaviour (before patch c20-15) REFUTED: the saved row carried the org the request BODY named; a body
+without `org_id` (org 0) moved the contact of org 1 out of what org 1 reads — by org 1's OWN update. -/
+theorem contact_update_moves_org_old_counterexample :
+    ¬ (∀ (st : St) (t id : Nat) (name : Key) (pager : String) (slack : List String),
+        (stepBodyOrg (fun _ => 0) st (.update t id name pager slack)).2 = .res .ok →
+        abs (stepBodyOrg (fun _ => 0) st (.update t id name pager slack)).1 t id = some (name, pager, slack)) := by
+  intro h
+  have h1 := h (step init (.create 1 [97] "p" [])).1 1 1 [97] "q" [] (by decide)
+  revert h1; decide
 
 /-- OLD behaviour (before patch c20-8) REFUTED: a create whose name exists — in whatever org — was
 acknowledged and stored nothing (`CreateContact` returned nil when `First` found the name). -/
@@ -811,32 +894,22 @@ theorem kv_refines_spec_contact_old_counterexample_failed_update : ¬ (∀ ops, 
   rw [h3] at h2
   rcases h2 with ⟨_, e⟩ | ⟨_, _, e⟩ | ⟨_, _, e⟩ <;> cases e
 
-/-- C20.K3 (contact points) is REFUTED: an update by org 1 of org 0's contact is accepted and MOVES the
-contact out of what org 0 reads (no org check; the saved row carries the caller's org id). -/
-theorem tenant_frame_contact_counterexample :
-    ¬ (∀ (st : St) (t id : Nat) (name : Key) (pager : String) (slack : List String) (t' id' : Nat),
-        t' ≠ t → abs (step st (.update t id name pager slack)).1 t' id' = abs st t' id') := by
+/-- OLD behaviour (before patch c20-18) REFUTED for C20.K3: an update by org 1 of org 0's contact was accepted and
+changed what org 0 reads (no org check; the saved row carried the org of the body). -/
+theorem tenant_frame_contact_old_counterexample :
+    ¬ (∀ (st : St) (t cid : Nat) (name : Key) (pager : String) (slack : List String) (t' id' : Nat),
+        t' ≠ t → abs (stepBodyOrg id st (.update t cid name pager slack)).1 t' id' = abs st t' id') := by
   intro h
   have h1 := h (step init (.create 0 [97] "p" [])).1 1 1 [98] "q" [] 0 1 (by decide)
   revert h1; decide
 
-/-- C20.K3 (contact points), partial: under the guard an operation of org `t` leaves what every other
-org reads unchanged. -/
-theorem tenant_frame_contact_partial (ops : List Op) (op : Op) (hc : ContactOwnIds (ops ++ [op]))
+/-- C20.K3 (contact points) at full strength: after EVERY operation sequence a request of org `t` leaves what
+every other org reads unchanged. -/
+theorem tenant_frame_contact (ops : List Op) (op : Op)
     (t : Nat) (ht : op.tenant = some t) (t' : Nat) (hne : t' ≠ t) (id : Nat) :
     abs (step (run init ops).1 op).1 t' id = abs (run init ops).1 t' id := by
-  have hsplit : ∀ (ops : List Op) (st : St), Lemmas.C20K.Contact.Inv st → OwnIds st (ops ++ [op]) = true →
-      Lemmas.C20K.Contact.Inv (run st ops).1 ∧ stepOwn (run st ops).1 op = true := by
-    intro ops
-    induction ops with
-    | nil => intro st hi h; exact ⟨hi, by simpa [OwnIds, run] using h⟩
-    | cons o r ih =>
-      intro st hi h
-      simp only [List.cons_append, OwnIds, Bool.and_eq_true] at h
-      have := ih _ (Lemmas.C20K.Contact.step_ok hi o h.1).1 h.2
-      simpa [run] using this
-  obtain ⟨hi, hcl⟩ := hsplit ops init Lemmas.C20K.Contact.inv_init hc
-  have h2 := (Lemmas.C20K.Contact.step_ok hi op hcl).2.1
+  have hi := Lemmas.C20K.Contact.inv_run ops init Lemmas.C20K.Contact.inv_init
+  have h2 := (Lemmas.C20K.Contact.step_ok hi op).2.1
   rw [h2]
   cases op with
   | create t0 name pager slack =>
@@ -909,6 +982,26 @@ theorem dash_update_creates_cycle_old_counterexample :
   have h1 := h [.createFolder 1 [97] 0, .updateDash 1 1 [97] "p" (some 1)] 1
   revert h1; decide
 
+/-- OLD behaviour (before patch c20-13) REFUTED: `createFolder` and a folder rename refuse a name that a sibling
+carries ("already exists in this location"), but `updateFolder` ran that test only when the request RENAMED the
+folder: a folder that was only moved landed next to a folder of its own name — two folders of one name (and one
+full path) in one parent. -/
+theorem folder_names_distinct_old_counterexample :
+    ¬ (∀ ops t p, (folderNames ((runOld init ops).1.fs t) p).Nodup) := by
+  intro h
+  have h1 := h [.createFolder 0 [97] 0, .createFolder 0 [98] 0, .createFolder 0 [97] 2, .updateFolder 0 3 none (some 0)] 0 0
+  revert h1; decide
+
+example : -- WITH patch c20-13 the same requests end in "already exists": moved without a name, moved under its own name,
+    -- the OTHER folder moved next to it; a move under a free name, and a move after the namesake is gone, are accepted
+    (run init [.createFolder 0 [97] 0, .createFolder 0 [98] 0, .createFolder 0 [97] 2, .updateFolder 0 3 none (some 0),
+      .updateFolder 0 3 (some [97]) (some 0), .updateFolder 0 1 none (some 2), .updateFolder 0 3 (some [99]) (some 0),
+      .updateFolder 0 3 (some [97]) none, .deleteFolder 0 1, .updateFolder 0 3 (some [97]) none]).2 =
+    [.created 1, .created 2, .created 3, .res .exists_, .res .exists_, .res .exists_, .res .ok, .res .exists_, .res .ok,
+      .res .ok] ∧
+    (folderNames ((run init [.createFolder 0 [97] 0, .createFolder 0 [98] 0, .createFolder 0 [97] 2,
+      .updateFolder 0 3 none (some 0)]).1.fs 0) 0).Nodup := by decide
+
 example : -- non-vacuous run: folder rename refreshes the stored folder path on the next read; recursive delete;
     -- the dashboard API refuses a folder id, the folder API a dashboard id, another tenant reads nothing
     (run init [.createFolder 0 [97] 0, .createDash 0 [100] "p" 1, .updateFolder 0 1 (some [122]) none, .getDash 0 2,
@@ -921,8 +1014,9 @@ example : -- non-vacuous run: folder rename refreshes the stored folder path on 
 end Dash
 
 /-! ## alert definitions (pkg/alerts/alertsqlite, CreateAlert / UpdateAlert / DeleteAlert / GetAlert /
-GetAllAlerts) — modelled for the correspondence; proved here: restart identity, name uniqueness for every
-operation sequence, and the counterexample for the missing org check.  No refinement theorem. -/
+GetAllAlerts behind the request handlers of pkg/alerts/alertsHandler) — modelled for the correspondence; proved here:
+restart identity, name uniqueness for every operation sequence and, WITH patches c20-16 / c20-18, the tenant frame
+at full strength (counterexamples for the behaviour before them).  No refinement theorem. -/
 section AlertDB
 open SigModel.KV.AlertDB
 
@@ -937,22 +1031,62 @@ theorem alert_names_unique (ops : List Op) (id id' : Nat) (r r' : Row)
     (hn : r.name = r'.name) : id = id' :=
   Lemmas.C20K.AlertDB.unique_run ops init Lemmas.C20K.AlertDB.unique_init id id' r r' h h' hn
 
-/-- C20.K3 (alert definitions) is REFUTED: org 1 updating, then deleting, the alert of org 0 by its id is
-accepted (GetAlert / UpdateAlert / DeleteAlert carry no org id) and changes what org 0 lists. -/
-theorem tenant_frame_adb_counterexample :
+/-- OLD behaviour (before patch c20-18) REFUTED for C20.K3: org 1 deleting the alert of org 0 by its id was
+accepted (GetAlert / UpdateAlert / DeleteAlert and their handlers carried no org id) and changed what org 0 lists. -/
+theorem tenant_frame_adb_old_counterexample :
     ¬ (∀ (st : St) (op : Op) (t : Nat), (match op with
           | .update t' _ _ _ _ => t' = t | .delete t' _ => t' = t | _ => False) →
-        ∀ t', t' ≠ t → (step (step st op).1 (.list t')).2 = (step st (.list t')).2) := by
+        ∀ t', t' ≠ t → (stepNoOrg (stepNoOrg st op).1 (.list t')).2 = (stepNoOrg st (.list t')).2) := by
   intro h
   have h1 := h (run init [.contact 0 [99], .create 0 [97] "m" 1]).1 (.delete 1 1) 1 rfl 0 (by decide)
   revert h1; decide
 
+/-- C20.K3 (alert definitions) at full strength, WITH patches c20-16 / c20-18: after EVERY operation sequence a
+request of org `t` (create, update, delete, get, list, the auxiliary contact create) leaves every alert of every
+other org exactly as it is and creates no alert for another org: the alerts whose org is not `t` are the same
+before and after. -/
+theorem tenant_frame_adb (ops : List Op) (op : Op) (t : Nat) (ht : op.tenant = some t) (id : Nat) (r : Row)
+    (hne : r.org ≠ t) :
+    (step (run init ops).1 op).1.alerts.get id = some r ↔ (run init ops).1.alerts.get id = some r :=
+  Lemmas.C20K.AlertDB.frame_step (Lemmas.C20K.AlertDB.fresh_run ops init Lemmas.C20K.AlertDB.fresh_init) op t ht id r hne
+
+/-- … and a get request answers only with an alert of the org it was made for — in ANY state. -/
+theorem get_alert_own_org (st : St) (t id id' : Nat) (r : Row) (h : (step st (.get t id)).2 = .alert id' r) :
+    r.org = t := by
+  simp only [step] at h
+  split at h
+  · split at h <;> cases h
+  · rename_i r0 _
+    by_cases ho : r0.org = t
+    · simp only [ne_eq, ho, not_true_eq_false, if_false] at h
+      cases h; exact ho
+    · simp only [ne_eq, ho, not_false_eq_true, if_true] at h
+      cases h
+
+/-- OLD behaviour (before patch c20-18) REFUTED: a get request of org 1 was answered with the alert of org 0. -/
+theorem get_alert_own_org_old_counterexample :
+    ¬ (∀ (st : St) (t id id' : Nat) (r : Row), (stepNoOrg st (.get t id)).2 = .alert id' r → r.org = t) := by
+  intro h
+  have h1 := h (run init [.contact 0 [99], .create 0 [97] "m" 1]).1 1 1 1
+    { name := [97], org := 0, msg := "m", cid := 1, cname := [99] } (by decide)
+  revert h1; decide
+
+/-- OLD behaviour (before patch c20-16) REFUTED: the create request stored the alert for the org its BODY named —
+a request of org 1 naming org 2 produced an alert that org 2 lists. -/
+theorem create_alert_body_org_old_counterexample :
+    ¬ (∀ (st : St) (bodyOrg t : Nat) (name : Key) (msg : String) (cid id : Nat) (r : Row), r.org ≠ t →
+        (createBodyOrg st bodyOrg name msg cid).1.alerts.get id = some r → st.alerts.get id = some r) := by
+  intro h
+  have h1 := h (run init [.contact 1 [99]]).1 2 1 [97] "m" 1 1
+    { name := [97], org := 2, msg := "m", cid := 1, cname := [99] } (by decide) (by decide)
+  revert h1; decide
+
 example : -- non-vacuous run: duplicate name, missing contact, invalid names, unknown id, contact change, restart
     (run init [.contact 0 [99], .contact 1 [100], .create 0 [97] "m1" 1, .create 1 [97] "m2" 1, .create 0 [98] "m3" 5,
-      .create 0 [] "m" 1, .create 0 [42] "m" 1, .get 0 9, .update 0 9 [120] "m" none, .update 0 1 [120] "m4" (some 2),
-      .restart, .list 0, .delete 0 1, .delete 0 1]).2 =
+      .create 0 [] "m" 1, .create 0 [42] "m" 1, .get 0 9, .update 0 9 [120] "m" none, .get 1 9, .get 1 1, .update 1 1 [121] "x" none,
+      .delete 1 1, .update 0 1 [120] "m4" (some 2), .restart, .list 0, .delete 0 1, .delete 0 1]).2 =
     [.created 1, .created 2, .created 1, .res .exists_, .res .parentNotFound, .res .invalid, .res .invalid, .noAlert,
-      .res .invalid, .res .ok, .restarted,
+      .res .invalid, .res .notFound, .res .notFound, .res .notFound, .res .notFound, .res .ok, .restarted,
       .rows [(1, { name := [120], org := 0, msg := "m4", cid := 2, cname := [100] })], .res .ok, .res .notFound] := by
   decide
 end AlertDB
